@@ -730,6 +730,26 @@ def check_analysis(ctx: Ctx, oid: str):
     _need(ctx, oid, "R16 PAIRED-EFFECTS", al, "each variable enters the analysis once: current-level variables are counted, the others contribute their false literal to the learned clause", ["var = lit_var(lit)\n    if seen[var] or vals[var] == UNDEF:\n        return\n    seen[var] = True", "if levels[var] == current_level:\n        counter += 1\n    else:\n        learned_lits.append(lit_neg(lit) if (vals[var] == 1) == (lit > 0) else lit)"])
     _need(ctx, oid, "R16 PAIRED-EFFECTS", a, "the trail is walked backwards over the seen variables; a current-level variable lowers the counter; at zero its negated assignment is the UIP literal, placed first; otherwise it is resolved with its reason clause", ["for lit in clause:\n        add_lit(lit)", "trail_idx = len(trail) - 1\n    while counter > 0:\n        while trail_idx >= 0 and (not seen[trail[trail_idx]]):\n            trail_idx -= 1\n        if trail_idx < 0:\n            break\n        var = trail[trail_idx]\n        trail_idx -= 1", "if levels[var] == current_level:\n            counter -= 1\n            if counter == 0:\n                uip_lit = var if vals[var] == 0 else -var\n                learned_lits.insert(0, uip_lit)\n                break\n            reason_idx = reasons[var]\n            if reason_idx >= 0:\n                for lit in get_clause(reason_idx):\n                    if lit_var(lit) != var:\n                        add_lit(lit)"])
     _need(ctx, oid, "R18 table", a, "backjump level = second highest level of the learned clause (0 for a single level); LBD = number of levels", ["lvl_set = set((levels[lit_var(lit)] for lit in learned_lits if vals[lit_var(lit)] != UNDEF))", "lvls = sorted(lvl_set, reverse=True)\n    bt_level = lvls[1] if len(lvls) > 1 else 0\n    lbd = len(lvl_set)", "return (learned_lits, bt_level, lbd)", "if not learned_lits:\n        return (None, -1, 0)"])
+    # the learned clause is what first-UIP resolution collected, nothing is taken out of it afterwards: it is written by
+    # its initialisation, by add_lit's append and by the insertion of the UIP literal - a literal that is removed
+    # (a minimisation step) needs its own soundness argument, which no rule here can check
+    writes = []
+    for g_ in (a, al):
+        for n in own_nodes(g_.node):
+            if isinstance(n, ast.Call) and isinstance(n.func, ast.Attribute) and isinstance(n.func.value, ast.Name) and n.func.value.id == "learned_lits" and n.func.attr in ("append", "insert", "extend", "remove", "pop", "clear", "sort", "reverse"):
+                ok_ = (n.func.attr == "append" and g_ is al) or (n.func.attr == "insert" and g_ is a and n.args and ast.unparse(n.args[0]) == "0")
+                if not ok_:
+                    writes.append(n)
+            elif isinstance(n, (ast.Assign, ast.AugAssign, ast.Delete)):
+                for t_ in n.targets if isinstance(n, (ast.Assign, ast.Delete)) else [n.target]:
+                    b_ = t_
+                    while isinstance(b_, (ast.Subscript, ast.Attribute)):
+                        b_ = b_.value
+                    if isinstance(b_, ast.Name) and b_.id == "learned_lits":
+                        if isinstance(n, ast.Assign) and isinstance(t_, ast.Name) and ast.unparse(n.value) == "[]":
+                            continue
+                        writes.append(n)
+    ctx.ob(oid, "R27 WRITE-OWNERSHIP", a, "the learned clause is written only by its initialisation, add_lit's append and the insertion of the UIP literal", not writes, f"`{ast.unparse(writes[0])[:70]}`: a literal removed from the learned clause makes it stronger than what resolution derived - if the removal is wrong in one corner the clause is not implied by the formula, and a satisfiable formula can be answered INFEASIBLE" if writes else "", node=writes[0] if writes else a.node)
     f = ctx.func("sat", "solve_sat")
     _need(ctx, oid, "R16 PAIRED-EFFECTS", f, "a decision opens a level, assigns the saved phase without a reason and propagates", ["decisions += 1\n        dec_level += 1\n        trail_lim.append(len(trail))\n        assign(var, phase[var], -1)\n        conflict = propagate()"])
     lb = ctx.func("sat", "luby")
